@@ -227,6 +227,30 @@ fn life_cfg(name: String, is7: bool, d: u32) -> Config
                 c
 }
 
+/// An entity that still carries a despawn tracker although no despawn reactor is registered for it any more (its only
+/// one was revoked), despawned in the same batch as entities with live despawn reactors.
+fn orphan_tracker_cfg(name: String, n: u32) -> Config
+{
+    let mut c = Config::base(&name);
+    c.actors = vec![Variant::Plain, Variant::Plain];
+    c.n_ents = 3;
+    c.setup = vec![
+        Op::RegisterNew(Variant::Plain, Bundle::one(Trig::Despawn(0)), Mode::Revokable),
+        Op::Revoke(0),
+        Op::Gc,
+        Op::Register(1, Bundle::two(Trig::Despawn(1), Trig::Despawn(2)), Mode::Persistent),
+    ];
+    c.fixed_top = vec![Op::Run(0)];
+    c.script = Arc::new(|_i: &DynInfo| vec![Op::Despawn(0), Op::Despawn(1), Op::Despawn(2), Op::Run(0), Op::Nop]);
+    c.top = Arc::new(|_i: &DynInfo| vec![Op::Despawn(0), Op::Despawn(1), Op::Poll, Op::Run(0)]);
+    c.max_top = 2;
+    c.budget = n;
+    c.max_per_run = 3;
+    c.max_runs = 200;
+    c.sym_actors = vec![];
+    c
+}
+
 /// Systems whose entity survives without its system (`clear()` on a system command entity), next to ordinary stale
 /// targets.
 fn strip_cfg(name: String, n: u32) -> Config
@@ -487,7 +511,35 @@ pub fn plan(property: &str, tier: Tier) -> Option<Plan>
                     items.push(item(c, &format!("deliver2-{label}"), &format!("N={n}")));
                 }
             }
-            reports = vec!["C12"];
+            // deliveries sent from outside any tree while removals are waiting to be polled: the polled reactions run as
+            // trees of their own inside the entry poll of the first delivery, after that delivery's data was prepared
+            let ds: &[u32] = if q { &[4] } else { &[4, 5] };
+            for &d in ds
+            {
+                let mut c = Config::base(&format!("C12/tops-polled/D{d}"));
+                c.actors = vec![Variant::Plain, Variant::Plain];
+                c.n_ents = 2;
+                c.setup = {
+                    let mut s = vec![Op::Insert(Comp::A, 0, 0), Op::Insert(Comp::A, 1, 0)];
+                    s.extend(rich_setup(&[0, 1], &[0, 1], false, true));
+                    s
+                };
+                c.top = Arc::new(|_i: &DynInfo| vec![
+                    Op::RemoveComp(Comp::A, 0), Op::RemoveComp(Comp::A, 1), Op::Insert(Comp::A, 0, 1), Op::Insert(Comp::A, 1, 1),
+                    Op::Mutate(Comp::A, 0, How::GetMut), Op::Broadcast(Ev::A), Op::EntityEvent(Ev::A, 0), Op::Run(0),
+                ]);
+                c.script = Arc::new(|i: &DynInfo| {
+                    if i.runs_so_far > 2 { return Vec::new(); }
+                    vec![Op::RemoveComp(Comp::A, 1), Op::Insert(Comp::A, 0, 0), Op::Run(1)]
+                });
+                c.max_top = d;
+                c.budget = d + 1;
+                c.max_per_run = 2;
+                c.max_runs = 400;
+                items.push(item(c, "tops-polled", &format!("D={d}")));
+            }
+            // ("each with its own data": the data rules are reported here too)
+            reports = vec!["C12", "C03"];
             rule = "one or two sender runs delivering up to N items of every mix of kinds {Run, SysEvent, Broadcast, \
                 EntityEvent, Mutation, Insertion} to two targets (busy self / parent, idle other), plus runner-core \
                 programs; non-trivial = at least one run; distinct = distinct canonical trace".into();
@@ -569,6 +621,27 @@ pub fn plan(property: &str, tier: Tier) -> Option<Plan>
                 c.max_runs = 300;
                 c.sym_actors = vec![];
                 items.push(item(c, "respawn", &format!("N={n}")));
+            }
+            // one very large tree (a fixed script of 4200 runs queued by one body), then runs from the top level: a
+            // system's state must survive however many commands the tree before ran (the only place besides C10's bursts
+            // where a size other than 0..3 is part of a universe; thresholds on the tree position are a realistic way
+            // to lose state)
+            {
+                let mut c = Config::base("C13/big-tree/K4200");
+                c.actors = vec![Variant::Plain, Variant::Plain, Variant::Plain];
+                c.n_ents = 1;
+                c.setup = vec![Op::Register(2, Bundle::one(Trig::Broadcast(Ev::A)), Mode::Persistent)];
+                c.fixed_top = vec![Op::Run(0)];
+                let mut big: Vec<Op> = Vec::new();
+                for k in 0..4200u32 { big.push(if k % 7 == 6 { Op::Broadcast(Ev::A) } else { Op::Run(1) }); }
+                c.fixed_scripts = vec![(0, 0, big), (0, 1, vec![]), (0, 2, vec![])];
+                c.top = Arc::new(|_i: &DynInfo| vec![Op::Run(1), Op::Broadcast(Ev::A), Op::SysEvent(1), Op::Run(0)]);
+                c.max_top = 2;
+                c.script = Arc::new(|_i: &DynInfo| vec![]);
+                c.budget = 2;
+                c.max_runs = 20000;
+                c.sym_actors = vec![];
+                items.push(item(c, "big-tree", "K=4200"));
             }
             // (the lifetime rules of C07 are reported here too: state dropped while its system lives is a C13 matter)
             reports = vec!["C13", "C15", "C07"];
@@ -685,6 +758,11 @@ pub fn plan(property: &str, tier: Tier) -> Option<Plan>
             for &n in ns
             {
                 items.push(item(strip_cfg(format!("C11/strip/N{n}"), n), "strip", &format!("N={n}")));
+            }
+            let ns: &[u32] = if q { &[5] } else { &[5, 6] };
+            for &n in ns
+            {
+                items.push(item(orphan_tracker_cfg(format!("C11/orphan-tracker/N{n}"), n), "orphan-tracker", &format!("N={n}")));
             }
             reports = vec!["C11"];
             rule = "every quiescent point of runner-core and kind-rich programs (aborted, postponed, discarded and \
@@ -935,6 +1013,8 @@ pub fn plan(property: &str, tier: Tier) -> Option<Plan>
                     v.push(Op::EntityEvent(Ev::B, 0));
                     for a in i.ready_actors() { v.push(Op::SysEvent(a)); v.push(Op::DespawnSys(a)); }
                     v.push(Op::Despawn(0));
+                    // the hierarchy-aware despawn (takes whatever has been parented to the target with it)
+                    v.push(Op::DespawnRecursive(0));
                     v
                 });
                 c.script = alpha.clone();
@@ -1485,6 +1565,38 @@ pub fn plan(property: &str, tier: Tier) -> Option<Plan>
                     items.push(item(c, if update { "frames" } else { "flush" }, &format!("D={d}")));
                 }
             }
+            // reactors added with `App::add_reactor` *before* `ReactPlugin` (a legal order): the end-of-frame poll must
+            // exist whoever set the cache up first
+            {
+                let ds: &[u32] = if q { &[4] } else { &[4, 5] };
+                for &d in ds
+                {
+                    let mut c = Config::base(&format!("C08/frames-plugin-late/D{d}"));
+                    c.actors = vec![Variant::Plain];
+                    c.plugin_late = true;
+                    c.app_reactors = vec![
+                        (Variant::Plain, Bundle::two(Trig::Removal(Comp::A), Trig::Despawn(0))),
+                        (Variant::Plain, Bundle::three(Trig::EntityRemoval(Comp::A, 0), Trig::Despawn(0), Trig::Despawn(1))),
+                    ];
+                    c.n_ents = 2;
+                    c.setup = vec![Op::Insert(Comp::A, 0, 0), Op::Insert(Comp::A, 1, 0)];
+                    let alpha: AlphabetFn = Arc::new(move |_i: &DynInfo| {
+                        vec![
+                            Op::Insert(Comp::A, 0, 1), Op::RemoveComp(Comp::A, 0), Op::RemoveComp(Comp::A, 1),
+                            Op::Despawn(0), Op::Despawn(1), Op::Run(0),
+                        ]
+                    });
+                    c.top = alpha.clone();
+                    c.script = alpha;
+                    c.max_top = d;
+                    c.budget = d;
+                    c.max_per_run = 2;
+                    c.update_after_top = true;
+                    c.max_runs = 200;
+                    c.sym_actors = vec![];
+                    items.push(item(c, "frames-plugin-late", &format!("D={d}")));
+                }
+            }
             // real frames: operations issued by plain Bevy systems of the Update schedule (chained with sync points, or
             // unordered with deferred commands applied together), polled by the Last schedule of the same update
             for chained in [true, false]
@@ -1613,6 +1725,11 @@ pub fn plan(property: &str, tier: Tier) -> Option<Plan>
                 c.final_gc = true;
                 items.push(item(c, "despawn-many", &format!("N={n}")));
             }
+            let ns: &[u32] = if q { &[5] } else { &[5, 6] };
+            for &n in ns
+            {
+                items.push(item(orphan_tracker_cfg(format!("C08/orphan-tracker/N{n}"), n), "orphan-tracker", &format!("N={n}")));
+            }
             reports = vec!["C08"];
             rule = "histories of insert / remove / re-insert / despawn / recursive despawn of a parent (entity 1 is a child \
                 of entity 0) at top level and from inside reactor runs, with type-wide and entity-scoped removal \
@@ -1632,7 +1749,11 @@ pub fn plan(property: &str, tier: Tier) -> Option<Plan>
         }
         "C14" =>
         {
-            for (route, world_route, single_route) in [("accessors", false, false), ("accessors-single", false, true), ("accessors-world", true, false)]
+            // (`accessors-observer`: a plain Bevy observer on OnInsert of the component mirrors every insert on entity 0 onto
+            // entity 1 through ReactCommands::insert, so another insert of the same type is applied and scheduled between
+            // an insert and the command that schedules its reactions)
+            for (route, world_route, single_route, observer) in [("accessors", false, false, false), ("accessors-single", false, true, false),
+                ("accessors-world", true, false, false), ("accessors-observer", false, false, true)]
             {
             let ns: &[u32] = if q { &[3] } else if route == "accessors" { &[3, 4, 5] } else { &[3, 4] };
             for &n in ns
@@ -1640,6 +1761,7 @@ pub fn plan(property: &str, tier: Tier) -> Option<Plan>
                 let mut c = Config::base(&format!("C14/{route}/N{n}"));
                 c.world_route = world_route;
                 c.single_route = single_route;
+                c.mirror_observer = observer;
                 c.actors = vec![Variant::Plain, Variant::Plain];
                 c.n_ents = 2;
                 c.actors = vec![Variant::Plain, Variant::Plain, Variant::Plain];
